@@ -166,6 +166,9 @@ type event struct {
 }
 
 type node struct {
+	returnsField []string // fields of owner types this function returns directly (`return x.f`)
+	file         string
+	line0, line1 int
 	key    string
 	pkg    *packages.Package
 	body   *ast.BlockStmt
@@ -236,8 +239,25 @@ func (a *analyzer) index() {
 					continue
 				}
 				n := &node{key: fn.FullName(), pkg: p, body: fd.Body}
+				n.file, n.line0 = a.rel(fd.Pos())
+				_, n.line1 = a.rel(fd.End())
 				a.byFunc[fn] = n
 				a.byKey[n.key] = n
+				ast.Inspect(fd.Body, func(x ast.Node) bool {
+					switch v := x.(type) {
+					case *ast.FuncLit:
+						return false
+					case *ast.ReturnStmt:
+						for _, r := range v.Results {
+							if se, ok := r.(*ast.SelectorExpr); ok {
+								if f := a.fieldKey(p, se, false); f != "" {
+									n.returnsField = append(n.returnsField, f)
+								}
+							}
+						}
+					}
+					return true
+				})
 				// literals inside
 				cnt := 0
 				ast.Inspect(fd.Body, func(x ast.Node) bool {
@@ -245,6 +265,8 @@ func (a *analyzer) index() {
 						cnt++
 						_, line := a.rel(fl.Pos())
 						ln := &node{key: fmt.Sprintf("%s$lit%d@%d", n.key, cnt, line), pkg: p, body: fl.Body}
+						ln.file, ln.line0 = a.rel(fl.Pos())
+						_, ln.line1 = a.rel(fl.End())
 						a.byLit[fl] = ln
 						a.byKey[ln.key] = ln
 						a.litsIn[n.key] = append(a.litsIn[n.key], ln)
@@ -565,6 +587,15 @@ func (w *walker) emitAccess(field string, write bool, pos token.Pos, L lockset) 
 func (w *walker) emitCall(ts []*node, isGo bool, pos token.Pos, L lockset) {
 	if len(ts) == 0 {
 		return
+	}
+	// a callee that returns an owner field directly hands out an alias: whatever the caller does
+	// with the result (len, range, index) is a read of that field at the call site
+	if !isGo {
+		for _, t := range ts {
+			for _, f := range t.returnsField {
+				w.emitAccess(f, false, pos, L)
+			}
+		}
 	}
 	w.n.events = append(w.n.events, event{kind: evCall, targets: ts, isGo: isGo, pos: pos, held: L.canon()})
 }
@@ -1069,6 +1100,12 @@ type site struct {
 	Chain []string `json:"chain,omitempty"`
 }
 
+type span struct {
+	File  string `json:"file"`
+	Line0 int    `json:"line0"`
+	Line1 int    `json:"line1"`
+}
+
 type rowOut struct {
 	Idx   int    `json:"idx"`
 	Entry string `json:"entry"`
@@ -1177,6 +1214,7 @@ func main() {
 		Cond  string   `json:"cond"`
 		What  string   `json:"what"`
 		Roots []string `json:"roots"`
+		Spans []span   `json:"spans"`
 	}
 	var eouts []entryOut
 	for _, e := range entries {
@@ -1214,6 +1252,7 @@ func main() {
 				continue
 			}
 			eo.Roots = append(eo.Roots, trimKey(r.key))
+			eo.Spans = append(eo.Spans, span{r.file, r.line0, r.line1})
 			col.visit(e.Name, e.Multi, cond, r, lockset{}, nil)
 		}
 		eouts = append(eouts, eo)
